@@ -79,6 +79,12 @@ macro_rules! run_type {
                         $s.check(&format!("Range<{tn}> alternating"), json!(format!("{:?}", fr)), &json!(format!("{:?}", q)));
                         let mut fe = Vec::new(); for_each!{x in a..b => fe.push(x); }
                         $s.check(&format!("for_each!(Range<{tn}>)"), json!(format!("{:?}", fe)), &json!(format!("{:?}", q)));
+                        // a reference to the range is a source too (ConstIntoIter for &Range<T>)
+                        let rr = a..b;
+                        let mut fr = Vec::new(); for_each!{x in &rr => fr.push(x); }
+                        $s.check(&format!("for_each!(&Range<{tn}>)"), json!(format!("{:?}", fr)), &json!(format!("{:?}", q)));
+                        let ri = into_iter!(&rr);
+                        $s.check(&format!("into_iter!(&Range<{tn}>)::next_back"), pj(ri.copy().next_back().map(|x| x.0)), &eb);
                         let mut fr2 = Vec::new(); for_each!{x in a..b, rev() => fr2.push(x); } fr2.reverse();
                         $s.check(&format!("for_each!(Range<{tn}>,rev)"), json!(format!("{:?}", fr2)), &json!(format!("{:?}", q)));
                         $s.guard(&format!("std Range<{tn}> collect"), json!(format!("{:?}", (a..b).collect::<Vec<_>>())), &json!(format!("{:?}", q)));
@@ -109,6 +115,9 @@ macro_rules! run_type {
                         $s.monitor(&format!("RangeInclusive<{tn}> exhausted"), i.copy().next().is_none() && i.copy().next_back().is_none(), "None forever after exhaustion");
                         let mut fe = Vec::new(); for_each!{x in a..=b => fe.push(x); }
                         $s.check(&format!("for_each!(RangeInclusive<{tn}>)"), json!(format!("{:?}", fe)), &json!(format!("{:?}", q)));
+                        let rr = a..=b;
+                        let mut fr = Vec::new(); for_each!{x in &rr => fr.push(x); }
+                        $s.check(&format!("for_each!(&RangeInclusive<{tn}>)"), json!(format!("{:?}", fr)), &json!(format!("{:?}", q)));
                         let mut fr2 = Vec::new(); for_each!{x in a..=b, rev() => fr2.push(x); } fr2.reverse();
                         $s.check(&format!("for_each!(RangeInclusive<{tn}>,rev)"), json!(format!("{:?}", fr2)), &json!(format!("{:?}", q)));
                         $s.guard(&format!("std RangeInclusive<{tn}> collect"), json!(format!("{:?}", (a..=b).collect::<Vec<_>>())), &json!(format!("{:?}", q)));
